@@ -19,7 +19,8 @@
    External modules are oracle inputs carried by the ops (launch: size of the computed initial validator set,
    whether it contains an active provider validator, whether an external call of MakeConsumerGenesis /
    CreateConsumerClient fails; end block: iteration order of the client-id index, whether the validator set changed,
-   its new size, and how the channel keeper answers SendPacket). *)
+   its new size, and how the channel keeper answers SendPacket: 0 every call succeeds, 1 ErrClientNotActive on the
+   first packet, 2 + j another error on packet number j). *)
 From Coq Require Import ZArith List Bool.
 From ICS Require Import Base.Tree.
 Import ListNotations.
@@ -188,7 +189,7 @@ Definition limit : nat := 200.
 (* oracle of one launch attempt *)
 Record lora := mkLO { lo_size : Z; lo_active : bool; lo_extfail : bool }.
 (* oracle of one consumer in EndBlockVSU: validator set changed, new size, SendPacket answer
-   (0 ok, 1 ErrClientNotActive, otherwise another error on the first packet) *)
+   (0 ok, 1 ErrClientNotActive, 2 + j: another error on packet number j) *)
 Record eora := mkEO { eo_changes : bool; eo_size : Z; eo_mode : Z }.
 
 Fixpoint lookup {A} (d : A) (l : list (Z * A)) (c : Z) : A :=
@@ -456,7 +457,13 @@ Definition send_one (U : Z) (ora : list (Z * eora)) (s : state) (c : Z) : state 
         if m =? 0 then                                        (* all packets sent, queue deleted *)
           upd s c (fun r => set_sent (c_sent r + p_pending (c_proto r)) (set_proto (p_set_pending 0 (c_proto r)) r))
         else if m =? 1 then s                                 (* client expired: packets stay queued *)
-        else stop_and_prepare U s c                           (* cannot send: stop the consumer *)
+        else
+          (* SendPacket fails at packet number j = m - 2: the j packets before it went out, the queue is not
+             deleted, the consumer is stopped; when there are not that many packets all of them are sent *)
+          let j := Z.max 0 (m - 2) in
+          if p_pending (c_proto r) <=? j then
+            upd s c (fun r => set_sent (c_sent r + p_pending (c_proto r)) (set_proto (p_set_pending 0 (c_proto r)) r))
+          else stop_and_prepare U (upd s c (fun r => set_sent (c_sent r + j) r)) c
     else s
   end.
 
